@@ -112,7 +112,13 @@ class TaskScheduler(object):
                 self._schedule_batch(task.batch)
                 self._tasks.pop()
             else:
-                task._compute()
+                try:
+                    task._compute()
+                except Exception:
+                    # The future has recorded its own failure; it is raised in the
+                    # task that yielded it, like the failure of any other dependency.
+                    if not task.is_computed():
+                        raise
                 self._tasks.pop()
 
     def _schedule_batch(self, batch):
